@@ -665,6 +665,78 @@ def c18_7(ctx):
         out.append(ctx.bad("bloomfilter:BloomFilter.__init__", "bit field does not have 8·size bits", fn2, mod2, key="field-size"))
     return out
 
+def _murmur3_ref(data, seed):
+    """MurmurHash3 x86_32 (reference the library's filter is compared with)"""
+    c1, c2, M = 0xCC9E2D51, 0x1B873593, 0xFFFFFFFF
+    h = seed & M
+    rot = lambda x, r: ((x << r) | (x >> (32 - r))) & M
+    nb = len(data) // 4
+    for i in range(nb):
+        k = int.from_bytes(data[4 * i:4 * i + 4], "little")
+        k = (rot((k * c1) & M, 15) * c2) & M
+        h = (rot(h ^ k, 13) * 5 + 0xE6546B64) & M
+    tail = data[4 * nb:]
+    if tail:
+        k = int.from_bytes(tail, "little")
+        h ^= (rot((k * c1) & M, 15) * c2) & M
+    h ^= len(data)
+    h ^= h >> 16
+    h = (h * 0x85EBCA6B) & M
+    h ^= h >> 13
+    h = (h * 0xC2B2AE35) & M
+    return h ^ (h >> 16)
+
+
+def c18_20(ctx):
+    if not hasattr(ctx, "_c18_20"):
+        ctx._c18_20 = _c18_20(ctx)
+    return ctx._c18_20
+
+
+def _c18_20(ctx):
+    """BIP37 filter bytes, evaluated end to end (constructor, add, the hash, the bit packer -- no stand-ins) against the rule's own MurmurHash3 and
+    BIP37 positions: filters in which every position is hit once, in which one element is added twice, in which many elements share positions
+    (a 2-byte filter with 50 hash functions, bit 7 of a byte among the shared ones), an empty element, elements of 1..9 bytes (every tail length of
+    the hash) and tweaks that carry the seed beyond 32 bits.  Every inserted element is reported present and the bytes are BIP37's."""
+    from sa.cells import ClassRef, Evaluator, Obj, Raised, Undecided
+    spec = "bloomfilter:BloomFilter.add"
+    mod, fn = rl.get(ctx, spec)
+    cases = [("the elements of the project's own test", 10, 5, 99, [b"Hello World", b"Goodbye!"]),
+             ("one element added twice", 10, 5, 99, [b"Hello World", b"Hello World"]),
+             ("eight elements in a 2-byte filter with 50 hash functions", 2, 50, 0xDEADBEEF, [bytes([i]) for i in range(8)]),
+             ("an empty element", 4, 3, 0, [b""]),
+             ("elements of 1..9 bytes", 36, 11, 0xFFFFFFFF, [bytes(range(1, k + 1)) for k in range(1, 10)]),
+             ("a one-byte filter", 1, 1, 7, [b"a", b"b", b"c"]),
+             ("no element at all", 3, 2, 1, [])]
+    n = 0
+    try:
+        for what, size, k, tweak, items in cases:
+            n += 1
+            want = bytearray(size)
+            for it in items:
+                for i in range(k):
+                    b = _murmur3_ref(it, i * 0xFBA4C795 + tweak) % (size * 8)
+                    want[b >> 3] |= 1 << (b & 7)
+            ev = Evaluator(ctx.repo, max_steps=4000000)
+            flt = Obj("bloomfilter", "BloomFilter", {})
+            try:
+                ev.call("bloomfilter:BloomFilter.__init__", [size, k, tweak], self_obj=flt)
+                for it in items:
+                    ev.call(spec, [it], self_obj=flt)
+                got = ev.call("bloomfilter:BloomFilter.filter_bytes", [], self_obj=flt)
+            except Raised as x:
+                return [ctx.bad(spec, "%s (size %d, %d functions, tweak %#x): building the filter raises %s" % (what, size, k, tweak, x.name), fn, mod, key="bloom-cells")]
+            if not isinstance(got, (bytes, bytearray)) or bytes(got) != bytes(want):
+                return [ctx.bad(spec, "%s (size %d, %d functions, tweak %#x): the filter bytes are %s, BIP37 (MurmurHash3 positions of every inserted element) gives %s -- an inserted "
+                                      "element is not reported present, or a bit nothing hashed to is set" % (what, size, k, tweak, bytes(got).hex() if isinstance(got, (bytes, bytearray)) else got,
+                                                                                                            bytes(want).hex()), fn, mod, key="bloom-cells")]
+    except Undecided as u:
+        return [ctx.err(spec, "bloom filter not evaluable: %s" % u, fn, mod)]
+    ctx.count("cells", n)
+    return [ctx.ok(spec, "%d filters (positions hit once, twice and many times; bit 7; empty and 1..9-byte elements; seed beyond 32 bits; no element): bytes equal BIP37's" % n, fn, mod,
+                   key="bloom-cells")]
+
+
 
 def c18_10(ctx):
     """MEMO: no hash position / bit position is remembered under a key that leaves out the filter's key, size or tweak"""
@@ -1009,7 +1081,8 @@ OBLIGATIONS = [
     ("C18.4", "BITS", c18_4),
     ("C18.5", "BITS", c18_5),
     ("C18.6", "LAYOUT", c18_6),
-    ("C18.7", "DATAFLOW", c18_7),
+    ("C18.20", "CELLS bloom filter", c18_20),
+    ("C18.7", "DATAFLOW", rl.deferring(c18_7, c18_20, "bloomfilter:BloomFilter.add", "decided by the bloom-filter cells (C18.20: filter bytes equal BIP37's over positions hit once, twice and many times); the store is not in the form this rule reads")),
     ("C18.8", "COUNT per-iteration", c18_8),
     ("C18.9", "RANGE domain", c18_9),
     ("C18.10", "MEMO", c18_10),
